@@ -1,6 +1,6 @@
 (* C16 - Parameter, header and items validators follow Swagger simple-schema semantics. *)
-From Coq Require Import List ZArith Bool.
-From Verif Require Import Base.Sx Base.GoVal Base.F64 Schema.Ast Schema.Pipeline Schema.Draft4 Schema.Simple Schema.SimpleFacts Schema.AgreementData Schema.AgreementDec Schema.AgreementFlocq Schema.SimpleAgree Schema.SimpleAgreeDec.
+From Coq Require Import List ZArith Bool QArith Lia.
+From Verif Require Import Base.Sx Base.GoVal Base.F64 Schema.Ast Schema.Pipeline Schema.Draft4 Schema.Simple Schema.SimpleFacts Schema.AgreementData Schema.AgreementDec Schema.AgreementFlocq Schema.SimpleAgree Schema.SimpleAgreeDec Schema.Numeric Schema.SimpleCarrier Schema.SimpleCarrierDec.
 Import ListNotations.
 Open Scope Z_scope.
 
@@ -104,4 +104,67 @@ Example C16_fragment_is_inhabited :
   jd_b (fun _ => true) false true 4 c16_value = true /\ qfits_b c16_ops (sr_simple c16_param) c16_value = true /\
   root_spec c16_oracles c16_ops c16_param c16_value = true /\
   root_spec c16_oracles c16_ops c16_param (VArr 1 [VArr 2 [VFlt false 1; VFlt false 8]]) = false.
+Proof. vm_compute. repeat split. Qed.
+
+(* ---- typed values: what generated server code hands over after binding (int8 .. uint64, float32, typed slices) ----
+   A typed value is read as the JSON value it carries ([as_json]: an integer as the number it is, a float32 widened, a
+   typed slice as an array).  For every numeric implementation that is exact on the numbers involved - the interface of
+   C13 ([exact_iface]) plus equality, the integer test, the conversions back to integers, the float32 range and the
+   divisibility test on small integers ([carrier_iface]) - the verdict on the typed value is the declarative reading of the
+   value it carries: integers within +-2^53 inside their kind; multipleOf on an integer carrier with a fractional factor
+   (signed kinds) or an integral factor with both numbers within +-2^26; arrays holding typed values without enum and
+   uniqueItems at that level (reflect.DeepEqual tells the carriers apart: finding equality-type-sensitive).
+   The binary64 instance the correspondence run executes is not proved to satisfy the two interfaces (that is IEEE 754
+   arithmetic on exactly representable integers; DESIGN section 7): for typed values the theorem is conditional. *)
+Theorem C16_typed_values_agree_with_the_reading_of_the_value_they_carry_partial :
+  forall OR N value ok, exact_iface N value ok -> carrier_iface N value ok ->
+  forall sr d, qclean OR N ok (q_format (sr_simple sr)) (sr_simple sr) -> tj ok d -> tfits N value ok (sr_simple sr) d ->
+  exists r, simple_validate OR N sr d = Ok (Some r) /\ r_valid r = root_spec OR N sr (as_json N d).
+Proof. exact simple_agree_t. Qed.
+Print Assumptions C16_typed_values_agree_with_the_reading_of_the_value_they_carry_partial.
+
+Theorem C16_typed_items_agreement_partial :
+  forall OR N value ok, exact_iface N value ok -> carrier_iface N value ok ->
+  forall rf it p i d, qclean OR N ok rf it -> tj ok d -> tfits N value ok it d ->
+  exists r, items_validate OR N rf it p i d = Ok r /\ r_valid r = q_spec OR N it (as_json N d).
+Proof. exact items_agree_t. Qed.
+Print Assumptions C16_typed_items_agreement_partial.
+
+(* the typed class is decidable as well (evaluated on every case of the correspondence run, with ok = finite) *)
+Theorem C16_typed_fragment_decision_is_sound : forall OR N value ok, exact_iface N value ok ->
+  forall ok_b, (forall f, ok_b f = true -> ok f) -> forall sr fuel d,
+  qclean_b OR N ok_b (q_format (sr_simple sr)) (sr_simple sr) = true -> tj_b ok_b fuel d = true -> tfits_b N ok_b (sr_simple sr) d = true ->
+  qclean OR N (finP ok_b) (q_format (sr_simple sr)) (sr_simple sr) /\ tj ok d /\ tfits N value ok (sr_simple sr) d.
+Proof.
+  intros OR N value ok X ok_b Hs sr fuel d H1 H2 H3.
+  split; [apply qclean_b_sound; exact H1|]. split; [apply (tj_b_sound ok ok_b Hs fuel d H2) | apply (tfits_b_sound N value ok X ok_b Hs _ _ H3)].
+Qed.
+Print Assumptions C16_typed_fragment_decision_is_sound.
+
+(* non-vacuity: the two interfaces are satisfiable (exact integers), and on them a header {type: array, items: {type:
+   integer, format: int32, maximum: 7, multipleOf: 2}} judges the typed slice []int8{2, 4} like [2, 4] and rejects
+   []int64{2, 9} like [2, 9] *)
+Example C16_interfaces_satisfiable : exact_iface c16_ops inject_Z (fun _ => True) /\ carrier_iface c16_ops inject_Z (fun _ => True).
+Proof.
+  split; constructor; simpl; intros; try reflexivity.
+  - rewrite Z.ltb_lt, Zlt_Qlt. tauto.
+  - rewrite Z.leb_le, Zle_Qle. tauto.
+  - split; [intros E; injection E as ->; reflexivity|intros E; f_equal; unfold Qeq in E; simpl in E; lia].
+  - split; [exact I|reflexivity].
+  - rewrite Z.eqb_eq. unfold Qeq. simpl. lia.
+  - assert (E : f = g) by (unfold Qeq in *; simpl in *; lia). subst f. reflexivity.
+Qed.
+
+Definition c16_even : simple := mkSimple k_integer false k_int32 None [] (Some 2) (Some 7) false None false None None 0 None None false None.
+Definition c16_header : sroot :=
+  {| sr_header := true; sr_name := 41; sr_required := true; sr_allow_empty := false;
+     sr_simple := mkSimple k_array false 0 None [] None None false None false None None 0 None None false (Some c16_even) |}.
+Example C16_typed_fragment_is_inhabited :
+  qclean_b c16_oracles c16_ops (fun _ => true) 0 (sr_simple c16_header) = true /\
+  tj_b (fun _ => true) 3 (VSlice 3 [VInt KInt8 2; VInt KInt8 4]) = true /\
+  tfits_b c16_ops (fun _ => true) (sr_simple c16_header) (VSlice 3 [VInt KInt8 2; VInt KInt8 4]) = true /\
+  as_json c16_ops (VSlice 3 [VInt KInt8 2; VInt KInt8 4]) = VArr 0 [VFlt false 2; VFlt false 4] /\
+  root_spec c16_oracles c16_ops c16_header (as_json c16_ops (VSlice 3 [VInt KInt8 2; VInt KInt8 4])) = true /\
+  tfits_b c16_ops (fun _ => true) (sr_simple c16_header) (VSlice 9 [VInt KInt64 2; VInt KInt64 9]) = true /\
+  root_spec c16_oracles c16_ops c16_header (as_json c16_ops (VSlice 9 [VInt KInt64 2; VInt KInt64 9])) = false.
 Proof. vm_compute. repeat split. Qed.
